@@ -440,6 +440,8 @@ class Verdict:
             "batches": per,
             "known_findings_hit": sorted(set(self.known_hits)),
         }
+        if self.tier != "quick" and TSCALE != 1:
+            cov["thorough_volume_scale"] = TSCALE   # VERIF_THOROUGH_SCALE was set: this is not the full-volume thorough tier
         cov.update(self.extra)
         return {"property_id": self.pid, "tier": self.tier, "seed": self.seed, "level": self.level, "coverage": cov,
                 "assumptions": self.assumptions, "wall_s": round(wall, 2), "violations": nviol}
